@@ -1,4 +1,9 @@
 import ArrowModel.C11.Model
+/-
+C11 — helper lemmas.  `cmpStrict` is byte-wise comparison that is *undefined* (`none`) when
+one list is a proper prefix of the other; `cmpStrict (enc a) (enc b) = some r` therefore
+states order preservation and prefix-freeness at once and composes under concatenation.
+-/
 namespace ArrowModel.C11
 
 /-- strict comparison: `none` when one list is a proper prefix of the other -/
@@ -745,5 +750,253 @@ theorem floatXform_eq (n s : Nat) (hn : 0 < n) (hs : s < 2 ^ n) :
         rw [Nat.testBit_lt_two_pow (show 2 ^ k + m < 2 ^ i by omega),
           Nat.testBit_lt_two_pow (show 2 ^ k + (2 ^ k - (m + 1)) < 2 ^ i by omega)]
         simp [hi]
+
+
+/-- the integer a fixed-width scalar is ordered by -/
+def scalarKey : FTy → Int → Int
+  | .float w, i => floatKey (8 * w) i
+  | _, i => i
+
+/-- the constant by which a type's byte key is shifted from its order key -/
+def keyOffset : FTy → Int
+  | .int true w => 2 ^ (8 * w - 1)
+  | .float w => 2 ^ (8 * w - 1)
+  | _ => 0
+
+theorem compareScalar_int (t : FTy) (i j : Int) :
+    compareScalar t (.int i) (.int j) = compareInt (scalarKey t i) (scalarKey t j) := by
+  cases t <;> rfl
+
+theorem compareNat_shift (a b : Nat) (x y c : Int) (ha : (a : Int) = x + c) (hb : (b : Int) = y + c) :
+    compareNat a b = compareInt x y := by
+  unfold compareNat compareInt
+  have e1 : a < b ↔ x < y := by omega
+  have e2 : b < a ↔ y < x := by omega
+  simp [e1, e2]
+
+theorem flipSign_eq (w s : Nat) (hs : s < 2 ^ (8 * (w + 1))) :
+    flipSign (beBytes (w + 1) s) = beBytes (w + 1) (offsetBin (w + 1) s) := by
+  have hs' := hs
+  rw [two_pow_8_succ] at hs'
+  apply flipSign_beBytes w s _ hs'
+  unfold offsetBin
+  rw [two_pow_8_pred]
+  split
+  · left; omega
+  · right; omega
+
+theorem floatShifts_eq {w : Nat} (h : w = 2 ∨ w = 4 ∨ w = 8) : floatShifts w = (8 * w - 1, 1) := by
+  rcases h with rfl | rfl | rfl <;> decide
+
+/-- every fixed-width body is the big-endian image of a key that is the scalar's order key
+shifted by a constant of the type -/
+theorem fixedBody_key (t : FTy) (i : Int) (h : t.admits (some (.int i)) = true) :
+    ∃ k : Nat, ∃ c : Int, encodeFixedBody t i = beBytes (fixedWidth t) k ∧ k < 256 ^ fixedWidth t ∧
+      (k : Int) = scalarKey t i + c ∧ c = keyOffset t := by
+  cases t with
+  | int signed w =>
+    cases signed with
+    | true =>
+      simp only [FTy.admits, Bool.and_eq_true, decide_eq_true_eq] at h
+      obtain ⟨⟨h1, h2⟩, hw⟩ := h
+      obtain ⟨w', rfl⟩ : ∃ w', w = w' + 1 := ⟨w - 1, by omega⟩
+      obtain ⟨hr, hu⟩ := twos_range w' i h1 h2
+      refine ⟨offsetBin (w' + 1) (twos (w' + 1) i), _, ?_, offsetBin_lt _ _ hr, ?_, rfl⟩
+      · simp only [encodeFixedBody, fixedWidth]; exact flipSign_eq _ _ hr
+      · rw [offsetBin_untwos _ _ hr, hu]; rfl
+    | false =>
+      simp only [FTy.admits, Bool.and_eq_true, decide_eq_true_eq] at h
+      obtain ⟨⟨h1, h2⟩, hw⟩ := h
+      refine ⟨i.toNat, 0, rfl, ?_, ?_, rfl⟩
+      · simp only [fixedWidth]
+        rw [← two_pow_8]
+        rw [int_two_pow] at h2; omega
+      · simp only [scalarKey]; omega
+  | float w =>
+    simp only [FTy.admits, Bool.and_eq_true, decide_eq_true_eq] at h
+    obtain ⟨⟨h1, h2⟩, hw⟩ := h
+    obtain ⟨w', rfl⟩ : ∃ w', w = w' + 1 := ⟨w - 1, by omega⟩
+    have hbits : i.toNat < 2 ^ (8 * (w' + 1)) := by rw [int_two_pow] at h2; omega
+    have hx := floatXform_eq (8 * (w' + 1)) i.toNat (by omega) hbits
+    have hxl : floatXform (8 * (w' + 1)) (8 * (w' + 1) - 1) 1 i.toNat < 2 ^ (8 * (w' + 1)) := by
+      rw [hx]
+      have : 2 ^ (8 * (w' + 1)) = 2 * 2 ^ (8 * (w' + 1) - 1) := by
+        rw [two_pow_8_succ, two_pow_8_pred]; omega
+      split <;> omega
+    refine ⟨offsetBin (w' + 1) (floatXform (8 * (w' + 1)) (8 * (w' + 1) - 1) 1 i.toNat), _, ?_,
+      offsetBin_lt _ _ hxl, ?_, rfl⟩
+    · simp only [encodeFixedBody, fixedWidth, floatShifts_eq hw]; exact flipSign_eq _ _ hxl
+    · rw [offsetBin_untwos _ _ hxl]
+      show untwos (w' + 1) _ + 2 ^ (8 * (w' + 1) - 1) = floatKey (8 * (w' + 1)) i + 2 ^ (8 * (w' + 1) - 1)
+      congr 1
+      unfold untwos floatKey
+      rw [hx]
+      have hp : 2 ^ (8 * (w' + 1)) = 2 * 2 ^ (8 * (w' + 1) - 1) := by
+        rw [two_pow_8_succ, two_pow_8_pred]; omega
+      simp only [int_two_pow]
+      have hi : (i.toNat : Int) = i := Int.toNat_of_nonneg h1
+      generalize 2 ^ (8 * (w' + 1) - 1) = H at *
+      generalize 2 ^ (8 * (w' + 1)) = M at *
+      by_cases hlt : i.toNat < H
+      · have h3 : i < (H : Int) := by omega
+        rw [if_pos hlt, if_pos hlt, if_pos h3]; omega
+      · have h3 : ¬ i < (H : Int) := by omega
+        have h4 : ¬ (H + (M - 1 - i.toNat) < H) := by omega
+        rw [if_neg hlt, if_neg h4, if_neg h3]; omega
+  | bool =>
+    simp only [FTy.admits, decide_eq_true_eq] at h
+    refine ⟨i.toNat, 0, ?_, ?_, ?_, rfl⟩
+    · rcases h with rfl | rfl <;> decide
+    · rcases h with rfl | rfl <;> decide
+    · simp only [scalarKey]; omega
+  | bin => simp [FTy.admits] at h
+  | fsb n => simp [FTy.admits] at h
+
+theorem fixedBody_length (t : FTy) (i : Int) (h : t.admits (some (.int i)) = true) :
+    (encodeFixedBody t i).length = fixedWidth t := by
+  obtain ⟨k, c, h1, _⟩ := fixedBody_key t i h
+  rw [h1, beBytes_length]
+
+theorem fixedBody_cmp (t : FTy) (i j : Int) (hi : t.admits (some (.int i)) = true) (hj : t.admits (some (.int j)) = true) :
+    compareBytes (encodeFixedBody t i) (encodeFixedBody t j) = compareScalar t (.int i) (.int j) := by
+  obtain ⟨k1, c1, e1, l1, v1, d1⟩ := fixedBody_key t i hi
+  obtain ⟨k2, c2, e2, l2, v2, d2⟩ := fixedBody_key t j hj
+  rw [e1, e2, compare_beBytes _ _ _ l1 l2, compareScalar_int]
+  exact compareNat_shift _ _ _ _ c1 v1 (by rw [d1, ← d2]; exact v2)
+
+
+theorem compareBytes_inv_eqlen {x y : List UInt8} (h : x.length = y.length) :
+    compareBytes (inv x) (inv y) = (compareBytes x y).swap :=
+  compareBytes_of_cmpStrict (cmpStrict_inv (cmpStrict_eqlen h))
+
+theorem inv_length (x : List UInt8) : (inv x).length = x.length := by simp [inv]
+theorem invIf_length (d : Bool) (x : List UInt8) : (invIf d x).length = x.length := by
+  cases d <;> simp [invIf, inv]
+
+theorem fixedSlot_cmp (o : SortOptions) (w : Nat) (a b : Option (List UInt8))
+    (ha : ∀ x, a = some x → x.length = w) (hb : ∀ x, b = some x → x.length = w) :
+    cmpStrict (encodeFixedSlot o w a) (encodeFixedSlot o w b) = some (compareVal o compareBytes a b) := by
+  obtain ⟨d, nf⟩ := o
+  cases a with
+  | none =>
+    cases b with
+    | none => rw [cmpStrict_eq_iff.mpr rfl]; rfl
+    | some y =>
+      simp only [encodeFixedSlot, compareVal]
+      cases nf
+      · exact cmpStrict_cons_gt _ _ (by show validByte < UInt8.ofNat _; decide)
+      · exact cmpStrict_cons_lt _ _ (by show UInt8.ofNat _ < validByte; decide)
+  | some x =>
+    cases b with
+    | none =>
+      simp only [encodeFixedSlot, compareVal]
+      cases nf
+      · exact cmpStrict_cons_lt _ _ (by show validByte < UInt8.ofNat _; decide)
+      · exact cmpStrict_cons_gt _ _ (by show UInt8.ofNat _ < validByte; decide)
+    | some y =>
+      have hx := ha x rfl
+      have hy := hb y rfl
+      simp only [encodeFixedSlot, compareVal, cmpStrict_cons_same]
+      rw [cmpStrict_eqlen (by rw [invIf_length, invIf_length, hx, hy])]
+      cases d
+      · rfl
+      · simp only [invIf, if_true]
+        rw [compareBytes_inv_eqlen (by rw [hx, hy])]
+
+theorem encodeField_cmp_fixed (o : SortOptions) (t : FTy) (a b : FVal) (ha : t.admits a = true) (hb : t.admits b = true)
+    (h1 : t ≠ .bin) (h2 : ∀ n, t ≠ .fsb n) :
+    cmpStrict (encodeField o t a) (encodeField o t b) = some (compareField o t a b) := by
+  have key : ∀ v : FVal, t.admits v = true → ∃ v' : Option Int,
+      encodeField o t v = encodeFixedSlot o (fixedWidth t) (v'.map (encodeFixedBody t)) ∧ v = v'.map Scalar.int ∧
+      ∀ i, v' = some i → t.admits (some (.int i)) = true := by
+    intro v hv
+    match v, hv with
+    | none, _ =>
+      refine ⟨none, ?_, rfl, by simp⟩
+      cases t <;> first | rfl | exact absurd rfl h1 | exact absurd rfl (h2 _)
+    | some (.int i), hv =>
+      refine ⟨some i, ?_, rfl, ?_⟩
+      · cases t <;> first | rfl | exact absurd rfl h1 | exact absurd rfl (h2 _)
+      · intro j hj; cases hj; exact hv
+    | some (.bytes x), hv =>
+      cases t <;> first | (simp [FTy.admits] at hv; done) | exact absurd rfl h1 | exact absurd rfl (h2 _)
+  obtain ⟨a', ea, rfl, la⟩ := key a ha
+  obtain ⟨b', eb, rfl, lb⟩ := key b hb
+  rw [ea, eb, fixedSlot_cmp o (fixedWidth t)]
+  · cases a' with
+    | none => cases b' <;> rfl
+    | some i =>
+      cases b' with
+      | none => rfl
+      | some j =>
+        simp only [Option.map_some, compareField, compareVal]
+        rw [fixedBody_cmp t i j (la i rfl) (lb j rfl)]
+  · intro x hx
+    cases a' with
+    | none => simp at hx
+    | some i => simp at hx; subst hx; exact fixedBody_length t i (la i rfl)
+  · intro x hx
+    cases b' with
+    | none => simp at hx
+    | some i => simp at hx; subst hx; exact fixedBody_length t i (lb i rfl)
+
+/-- **field level**: strict byte comparison of two encodings of the same field = the
+logical comparison of the values (so encodings are also never proper prefixes of one another) -/
+theorem encodeField_cmp (o : SortOptions) (t : FTy) (a b : FVal) (ha : t.admits a = true) (hb : t.admits b = true) :
+    cmpStrict (encodeField o t a) (encodeField o t b) = some (compareField o t a b) := by
+  cases t with
+  | bin =>
+    have key : ∀ v : FVal, FTy.bin.admits v = true → ∃ v' : Option (List UInt8),
+        encodeField o .bin v = encodeVar o v' ∧ v = v'.map Scalar.bytes := by
+      intro v hv
+      match v, hv with
+      | none, _ => exact ⟨none, rfl, rfl⟩
+      | some (.bytes x), _ => exact ⟨some x, rfl, rfl⟩
+      | some (.int _), hv => simp [FTy.admits] at hv
+    obtain ⟨a', ea, rfl⟩ := key a ha
+    obtain ⟨b', eb, rfl⟩ := key b hb
+    rw [ea, eb, encodeVar_cmp]
+    cases a' <;> cases b' <;> rfl
+  | fsb n =>
+    have key : ∀ v : FVal, (FTy.fsb n).admits v = true → ∃ v' : Option (List UInt8),
+        encodeField o (.fsb n) v = encodeFixedSlot o n v' ∧ v = v'.map Scalar.bytes ∧ ∀ x, v' = some x → x.length = n := by
+      intro v hv
+      match v, hv with
+      | none, _ => exact ⟨none, rfl, rfl, by simp⟩
+      | some (.bytes x), hv =>
+        simp only [FTy.admits, decide_eq_true_eq] at hv
+        refine ⟨some x, ?_, rfl, ?_⟩
+        · simp [encodeField, hv]
+        · intro y hy; cases hy; exact hv
+      | some (.int _), hv => simp [FTy.admits] at hv
+    obtain ⟨a', ea, rfl, la⟩ := key a ha
+    obtain ⟨b', eb, rfl, lb⟩ := key b hb
+    rw [ea, eb, fixedSlot_cmp o n a' b' la lb]
+    cases a' <;> cases b' <;> rfl
+  | int s w => exact encodeField_cmp_fixed o (.int s w) a b ha hb (by simp) (by simp)
+  | float w => exact encodeField_cmp_fixed o (.float w) a b ha hb (by simp) (by simp)
+  | bool => exact encodeField_cmp_fixed o .bool a b ha hb (by simp) (by simp)
+
+
+theorem encodeRow_cmp (fs : List (FTy × SortOptions)) : ∀ (r1 r2 : List FVal),
+    rowAdmits fs r1 = true → rowAdmits fs r2 = true →
+    cmpStrict (encodeRow fs r1) (encodeRow fs r2) = some (compareRows fs r1 r2) := by
+  induction fs with
+  | nil =>
+    intro r1 r2 h1 h2
+    cases r1 <;> cases r2 <;> simp_all [rowAdmits, encodeRow, compareRows, cmpStrict]
+  | cons f fs ih =>
+    obtain ⟨t, o⟩ := f
+    intro r1 r2 h1 h2
+    cases r1 with
+    | nil => simp [rowAdmits] at h1
+    | cons a as =>
+      cases r2 with
+      | nil => simp [rowAdmits] at h2
+      | cons b bs =>
+        simp only [rowAdmits, Bool.and_eq_true] at h1 h2
+        simp only [encodeRow, compareRows]
+        rw [cmpStrict_append_of_cmpStrict _ _ (encodeField_cmp o t a b h1.1 h2.1), ih as bs h1.2 h2.2]
+        cases compareField o t a b <;> rfl
 
 end ArrowModel.C11
